@@ -192,7 +192,13 @@ def run_scenario(sc, trace=None):
         model[owner[i]][reg_name(i)] = INITIAL + i
     comp = composite_hardware.Composite_Hardware()
     comp._registers = {r.name: r for r in regs}
-    comp.connect()
+    # life cycle of the composite object itself (the layers are usable throughout): connected (default), never connected,
+    # connected and disconnected again
+    life = sc.get("life", "connected")
+    if life != "never-connected":
+        comp.connect()
+    if life == "disconnected":
+        comp.disconnect()
     out = []
     calls = 0
     tracing = trace is not None                          # trace strings are only built for replay
@@ -307,6 +313,11 @@ def scenarios_of(item):
     else:
         for op in singles:
             yield dict(base, ops=[op])
+            if n <= 2:
+                for life in ("never-connected", "disconnected"):
+                    yield dict(base, ops=[op], life=life)
+                    if op[0] == "W":
+                        yield dict(base, ops=[op, ["R", list(readable)]], life=life)
         for i in readable:
             yield dict(base, ops=[["r", [i]]])
         for i in writable:
